@@ -86,6 +86,9 @@ type WStep struct {
 	Abort  bool  `json:"abort,omitempty"`  // the transaction function returns an error
 	Single bool  `json:"single,omitempty"` // one operation through Router.Handle/Update/Delete on a single-op key
 	Yield  bool  `json:"yield,omitempty"`
+	// Peek: the last thing the transaction function does before returning nil is to read its own state through an iterator
+	// ("iter") or a snapshot ("snapshot"); the commit that follows must still publish every write.
+	Peek string `json:"peek,omitempty"`
 }
 
 type RStep struct {
@@ -315,7 +318,26 @@ func run(p *Plan, count bool) error {
 						stamp = stampOf(cur) + 1
 						s := stamp
 						_, err := txn.Update("GET", "/__version", func(c fox.Context) { c.Writer().Header().Set("X-Stamp", fmt.Sprint(s)) }, fox.WithAnnotation(stampKey, s))
-						return err
+						if err != nil {
+							return err
+						}
+						switch st.Peek {
+						case "iter":
+							seen := int64(-1)
+							for _, r := range txn.Iter().All() {
+								if r.Pattern() == "/__version" {
+									seen = stampOf(r)
+								}
+							}
+							if seen != s {
+								return fmt.Errorf("the transaction's own iterator shows version %d after it wrote %d", seen, s)
+							}
+						case "snapshot":
+							if seen := stampOf(txn.Snapshot().Route("GET", "/__version")); seen != s {
+								return fmt.Errorf("the transaction's own snapshot shows version %d after it wrote %d", seen, s)
+							}
+						}
+						return nil
 					})
 				}, 30*time.Second)
 				ret := rec.clock.Add(1)
@@ -622,6 +644,7 @@ func genPlan(t *rapid.T) *Plan {
 					st.Ops = append(st.Ops, KOp{Kind: gen.Pick(t, []string{"handle", "handle", "update", "delete"}, "kind"), Key: gen.IntR(t, 0, nTxn-1, "tkey")})
 				}
 				st.Abort = gen.Chance(t, 1, 6, "abort")
+				st.Peek = gen.Pick(t, []string{"", "", "", "iter", "snapshot"}, "peek")
 			}
 			steps = append(steps, st)
 		}
